@@ -244,6 +244,62 @@ def run(tier, seed, replay=None):
                 what = m.group(1) if m else ("exit status %s" % rc)
                 dsn = (cur or "?").split()[1] if cur else "?"
                 rep.violation("probe:%s:%s" % (dsn, st), "calling '%s' in process state %s: %s (%s)" % (cur, st, what, where), dict(case=cur, state=st, stderr=err[-1500:]))
+    # ---- (5) the same registry calls on the production build under valgrind memcheck: use of uninitialised memory is undefined behaviour
+    # the sanitizers above cannot see (it shows as bytes after the value only when the stack happens to be dirty)
+    bp = c.build("prod", tag="C02p")
+    vprobe = os.path.join(bp["root"], "dsprobe-plain")
+    r = subprocess.run(["gcc", "-g", "-O0", "-w", "-I" + bp["src"] + "/src", "-I" + bp["src"], "-o", vprobe, os.path.join(c.VERIF, "harness/dsprobe.c"),
+                        bp["src"] + "/src/.libs/libsnoopy-no-entrypoint.a", "-lpthread", "-ldl"], capture_output=True, text=True)
+    if r.returncode:
+        raise c.MachineryError("cannot build the plain data-source probe: " + r.stderr[-1500:])
+    vcases = {}
+    for x in bc:
+        if x["n"] in (257, 2049):
+            vcases.setdefault(x["st"], {})[(x["ds"], x["arg"])] = x
+    for st in bystate:
+        for dsn in names:                 # every data source at least once per state
+            vcases.setdefault(st, {}).setdefault((dsn, "x"), dict(ds=dsn, n=2049, arg="x", st=st))
+
+    def vg_state(st):
+        cases = list(vcases[st].values())
+        if tier == "quick":
+            cases = cases[:120]
+        inp = ("state %s\n" % st if st != "normal" else "") + "".join("ds %s %d %s\n" % (x["ds"], x["n"], x["arg"]) for x in cases)
+        try:
+            p = subprocess.run(["valgrind", "-q", "--log-fd=1", "--error-exitcode=0", "--num-callers=12", vprobe, pini], input=inp, capture_output=True, text=True,
+                               env={"PATH": "/usr/bin:/bin"}, timeout=1500, errors="replace")
+            return st, len(cases), p.stdout
+        except subprocess.TimeoutExpired:
+            return st, 0, ""
+
+    nvg = 0
+    with ThreadPoolExecutor(max_workers=c.NCPU) as ex:
+        for st, ncase, out in ex.map(vg_state, list(vcases)):
+            nvg += ncase
+            cur, block = None, []
+            def flush():
+                if not block:
+                    return
+                head = re.sub(r"^==\d+== ", "", block[0])
+                fr = [re.sub(r"^==\d+==\s+(at|by) 0x[0-9A-F]+: ", "", l) for l in block[1:] if " at 0x" in l or " by 0x" in l]
+                where = next((f for f in fr if re.search(r"\((?!dsprobe)[\w-]+\.c:\d+\)", f) and "snoopy" in f), fr[0] if fr else "?")
+                if not any("snoopy" in f and "dsprobe.c" not in f for f in fr):
+                    return                                  # not inside the library (the probe's own strlen of the result counts as inside: see below)
+                dsn = (cur or "? ?").split()[1]
+                rep.violation("memcheck:%s:%s" % (dsn, where.split(" ")[0]), "valgrind memcheck, calling '%s' in process state %s: %s at %s" % (cur, st, head, where),
+                              dict(case=cur, state=st, report="\n".join(block[:14])))
+            for l in out.split("\n"):
+                if l.startswith("BEGIN "):
+                    flush(); block = []
+                    cur = l[6:]
+                elif re.match(r"^==\d+== \S", l) and not re.match(r"^==\d+==\s+(at|by) ", l):
+                    flush()
+                    block = [l]
+                elif re.match(r"^==\d+==\s+(at|by) ", l) and block:
+                    block.append(l)
+            flush()
+    total += nvg
+    rep.cov["memcheck_calls"] = nvg
     rep.cov["evaluations"] = total
     rep.cov["traces_validated_against_impl"] = total
     rep.cov["distinct_nontrivial"] = nontriv
@@ -251,7 +307,7 @@ def run(tier, seed, replay=None):
     rep.cov["data_sources_probed"] = len(names)
     rep.cov["rule"] = ("evaluation = one execution of the ASan+UBSan build: a hostile snoopy.ini (<= 2 lines exhaustively, 3 sampled, over %d line tokens) x call shape; a "
                        "model-generated format/limit case; a boundary argument vector; or one registry call of a data source / filter with an exactly-sized heap buffer "
-                       "(sizes 257..1 MiB+1, 8 argument classes, 6 process states incl. environ==NULL); non-trivial = everything except single-line files" % len(toks))
+                       "(sizes 257..1 MiB+1, 8 argument classes, 11 process states incl. environ==NULL and 253..255-byte login names; the same calls on the production build under valgrind memcheck); non-trivial = everything except single-line files" % len(toks))
     rep.sample(dict(hostile_file=[repr(toks[t - 1][:60]) for t in hs[len(hs) // 2]["file"]], shape=hs[len(hs) // 2]["shape"]))
     rep.sample(dict(buffer_case=bc[0]))
     rep.assumptions += ["memory safety is observed by AddressSanitizer/UBSan on executions chosen by the models; it is not proved (a TLA+ model does not decide UB of C)",
